@@ -2,7 +2,7 @@
    Table theorems are about the tables REGENERATED from mpn/generic/mp_bases.c and mp_dv_tab.c.
    Statements only. *)
 From Coq Require Import ZArith List Bool Reals.
-From Mpir Require Import Word DivDefs RadixDefs RadixReal RadixProofs.
+From Mpir Require Import Word DivDefs RadixDefs RadixReal RadixProofs TablesDefs TablesProofs.
 From MpirGen Require Import Gen_Consts Gen_BasesLog_all.
 Import ListNotations.
 Local Open Scope Z_scope.
@@ -63,6 +63,19 @@ Theorem C06_sizeinbase_pow2 : forall x k m e, x <> 0 -> 1 <= k ->
   sizeinbase x (2 ^ k) m e = Z.of_nat (length (digits (Z.abs x) (2 ^ k))).
 Proof. exact sizeinbase_pow2_spec. Qed.
 Print Assumptions C06_sizeinbase_pow2.
+
+(* the REGENERATED digit value table of mp_dv_tab.c, byte by byte: in bases up to 36 the digits are 0-9 and the letters of either
+   case with values 10..35, in bases 37..62 upper case is 10..35 and lower case 36..61, and EVERY other byte is "not a digit" *)
+Theorem C06_digit_value_table : forall c, 0 <= c < 256 ->
+  dv digit_value_tab 0 c = digit_spec_ci c /\ dv digit_value_tab 224 c = digit_spec_cs c.
+Proof. exact digit_tab_entries. Qed.
+Print Assumptions C06_digit_value_table.
+
+Theorem C06_only_documented_digits : forall c, 0 <= c < 256 ->
+  (dv digit_value_tab 0 c <> 255 <-> (is_dig c || is_up c || is_lo c) = true)
+  /\ (dv digit_value_tab 224 c <> 255 <-> (is_dig c || is_up c || is_lo c) = true).
+Proof. exact digit_tab_only_documented. Qed.
+Print Assumptions C06_only_documented_digits.
 
 Example C06_nonvacuous :
   set_str digit_value_tab [32; 45; 48; 120; 49; 70; 0] 0 = Some (-31)
